@@ -210,10 +210,11 @@ func (up4 *UP4) AddSliceInfo(sliceInfo *SliceInfo) error {
 		return err
 	}
 
+	// the slice MBR is in bits per second, the meter counts bytes (as the application and session meters do)
 	meterConfig := p4.MeterConfig{
 		Cir:    int64(0),
 		Cburst: int64(0),
-		Pir:    int64(sliceMbr),
+		Pir:    int64(sliceMbr / 8),
 		Pburst: int64(sliceBurstBytes),
 	}
 	sliceMeterEntry := up4.p4RtTranslator.BuildMeterEntry(p4constants.MeterPreQosPipeSliceTcMeter, uint32(meterCellId), &meterConfig)
